@@ -13,7 +13,11 @@
  */
 #include "cmv_common.h"
 #include "cmi_mempool.h"
+#ifdef CMV_ONE_OTHER
+#define CMV_HH_CAP 2
+#else
 #define CMV_HH_CAP 3
+#endif
 #define CMV_HH_MAY_MOVE() 0
 #include "hhstub.h"
 #include "cmb_process.h"
